@@ -84,6 +84,7 @@ fn faults_of(case: &J) -> ChainFaults {
     f.init_fails = list("init_fails");
     f.all_init_bad = list("all_init_bad");
     f.random_init = jb(case, "random_init", false);
+    f.random_math = jb(case, "random_math", false);
     if let Some(arr) = case.get("expand_fails").and_then(|x| x.as_array()) {
         for e in arr {
             f.expand_fails.insert(e[0].as_u64().unwrap(), e[1].as_u64().unwrap());
@@ -123,9 +124,67 @@ fn progress_json(p: &[nuts_rs::ChainProgress]) -> J {
     )
 }
 
+/// Chain i run alone, following the documented recipe of the parallel sampler through the public
+/// API only: ChaCha8(seed) on stream i + 1 -> Model::math -> Settings::new_chain -> init_position /
+/// set_position (retried) -> draws.  Returns energy bits, n_steps and diverging per draw.
+fn run_alone<S: Settings>(case: &J, settings: &S, chain: u64) -> J {
+    use nuts_rs::rand::{SeedableRng, rngs::ChaCha8Rng};
+    use nuts_rs::{Chain, Model};
+    use nuts_storable::Storable;
+    let dim = ju(case, "dim", 2) as usize;
+    let model = TestModel::new(TestLogp::std_normal(dim), faults_of(case), settings.seed(), settings.num_chains() as u64);
+    // the model numbers its densities in creation order (0 = controller): make this one chain `chain`
+    *model.created.lock().unwrap() = chain + 1;
+    let mut rng = ChaCha8Rng::seed_from_u64(settings.seed());
+    rng.set_stream(chain + 1);
+    let logp = match model.math(&mut rng) {
+        Ok(l) => l,
+        Err(e) => return json!({"error": format!("{e:?}")}),
+    };
+    let mut sampler = settings.new_chain(chain, logp, &mut rng);
+    let mut initval = vec![0f64; dim];
+    let mut ok = false;
+    for _ in 0..500 {
+        if model.init_position(&mut rng, &mut initval).is_err() {
+            return json!({"error": "init_position"});
+        }
+        if sampler.set_position(&initval).is_ok() {
+            ok = true;
+            break;
+        }
+    }
+    if !ok {
+        return json!({"error": "all initialisation points failed"});
+    }
+    let total = settings.hint_num_tune() + settings.hint_num_draws();
+    let (mut energy, mut n_steps, mut diverging) = (vec![], vec![], vec![]);
+    for _ in 0..total {
+        match sampler.expanded_draw() {
+            Err(e) => return json!({"error": format!("{e:?}"), "energy": energy}),
+            Ok((_pos, _exp, mut stats, progress)) => {
+                let math = sampler.math();
+                let dims = nuts_rs::verif::StatsDims::from(&*math);
+                let all = stats.get_all(&dims);
+                energy.push(stat_f64(&all, "energy").map(|x| x.to_bits().to_string()));
+                n_steps.push(progress.num_steps.to_string());
+                diverging.push(if progress.diverging { "1" } else { "0" });
+            }
+        }
+    }
+    json!({"energy": energy, "n_steps": n_steps, "diverging": diverging})
+}
+
 fn run_script<S: Settings>(case: &J, settings: S) -> J {
     let dim = ju(case, "dim", 2) as usize;
     let nchains = settings.num_chains() as u64;
+    let alone: Vec<J> = if jb(case, "alone", false) {
+        (0..nchains).map(|i| match catch(|| run_alone(case, &settings, i)) {
+            Ok(j) => j,
+            Err(p) => json!({"error": format!("panic: {p}")}),
+        }).collect()
+    } else {
+        vec![]
+    };
     let model = TestModel::new(TestLogp::std_normal(dim), faults_of(case), settings.seed(), nchains);
     let logs = model.logs.clone();
     let cores = ju(case, "num_cores", 2) as usize;
@@ -304,7 +363,7 @@ fn run_script<S: Settings>(case: &J, settings: S) -> J {
         .map(|(c, l)| json!([c, l.lock().unwrap().fatal_hits]))
         .collect();
     json!({"id": case["id"], "new": "ok", "steps": steps_out, "outcome": outcome, "hang": hang, "events": events,
-           "fatal_hits": fatal_hits,
+           "fatal_hits": fatal_hits, "alone": alone,
            "storage_fail_hits": verif_harness::slowstore::FAIL_HITS.load(std::sync::atomic::Ordering::SeqCst)})
 }
 
